@@ -112,6 +112,16 @@ type gInfo struct {
 }
 
 // derivedGoroutines returns the goroutines that have a frame in derived.gen.go.
+// abandonedG: goroutines left blocked in derived code by an execution that was already reported as a
+// deadlock (or leak); later executions of the same process must not be charged with them again.
+var abandonedG = map[string]bool{}
+
+func abandonDerivedGoroutines() {
+	for _, g := range derivedGoroutines() {
+		abandonedG[g.ID] = true
+	}
+}
+
 func derivedGoroutines() []gInfo {
 	buf := make([]byte, 1<<20)
 	n := runtime.Stack(buf, true)
@@ -132,6 +142,9 @@ func derivedGoroutines() []gInfo {
 		}
 		if i := strings.IndexByte(hd, '['); i >= 0 {
 			g.State = strings.TrimSuffix(strings.TrimSuffix(hd[i+1:], ":"), "]")
+		}
+		if abandonedG[g.ID] {
+			continue
 		}
 		out = append(out, g)
 	}
@@ -787,8 +800,9 @@ func chanMain(c Config, emit func(*Rep)) {
 				}
 				if len(res.viol) > 0 {
 					for _, v := range res.viol {
-						if strings.HasPrefix(v, "deadlock") {
+						if strings.HasPrefix(v, "deadlock") || strings.HasPrefix(v, "goroutine leak") {
 							stuck++
+							abandonDerivedGoroutines()
 						}
 						r.Fail(strings.SplitN(v, ":", 2)[0], "%s\n scenario: %+v\n history: %s", v, sc, fmtHist(res.hist))
 					}
